@@ -15,6 +15,10 @@ type propertyReference struct {
 	name    string
 	at      at
 	strict  bool
+	// primitive is the base value when it is a string, number or boolean:
+	// the this value of a call through the reference (11.2.3 step 6.a.i is
+	// GetBase(ref), not the wrapper object made to look the property up).
+	primitive Value
 }
 
 func newPropertyReference(rt *runtime, base *object, name string, strict bool, atv at) *propertyReference {
